@@ -106,6 +106,7 @@ type Frame struct {
 	cbResTypes []types.Type
 	cbCallee   string
 	cbEvent    int // index of the event of the call that runs the callback
+	cbEnsure   func(*State, []Val) // assumes the postconditions of the higher-order callee for the given results
 }
 
 type deferred struct {
